@@ -1030,6 +1030,17 @@ func (c *Client) stepCreate(op adapt.Op, got adapt.Outcome) []Diff {
 	if !validSpec(&spec) {
 		return wantClass(op, got, adapt.ClsValidation)
 	}
+	seenIx := map[string]bool{}
+	for _, ix := range spec.Indexes {
+		if seenIx[ix.Name] {
+			// two indexes of one name (global, local or one of each): refused, not "the last one wins"
+			if got.Class != adapt.ClsValidation {
+				return diff("duplicate-index-name", "CreateTable declaring two indexes named %q: got class %s, want a ValidationException", ix.Name, got.Class)
+			}
+			return nil
+		}
+		seenIx[ix.Name] = true
+	}
 	if d := wantClass(op, got, adapt.ClsOK); d != nil {
 		return d
 	}
@@ -1087,8 +1098,12 @@ func (c *Client) stepUpdateTable(op adapt.Op, got adapt.Outcome) []Diff {
 	for _, ch := range changes {
 		if ch.Create != nil {
 			if names[ch.Create.Name] {
-				// creating an index that exists: DynamoDB rejects; minidyn replaces it. Model: unsure.
-				return diff("model-gap", "create of an existing index is not generated")
+				// an index (global or local) of that name exists: the request is refused, the existing index is
+				// never silently replaced by another one
+				if got.Class != adapt.ClsValidation {
+					return diff("create-existing-index", "UpdateTable creating index %q, which the table already has: got class %s (%s), want a ValidationException", ch.Create.Name, got.Class, trunc(got.Msg))
+				}
+				return nil
 			}
 			names[ch.Create.Name] = true
 		}
@@ -1105,6 +1120,13 @@ func (c *Client) stepUpdateTable(op adapt.Op, got adapt.Outcome) []Diff {
 		if ch.Delete != "" {
 			if !names[ch.Delete] {
 				return wantClass(op, got, adapt.ClsNotFound, adapt.ClsValidation)
+			}
+			if ix, _ := t.Index(ch.Delete); ix.Local && ix.Name == ch.Delete {
+				// a local secondary index lives as long as its table: it is no GLOBAL secondary index to delete
+				if got.Class != adapt.ClsNotFound && got.Class != adapt.ClsValidation {
+					return diff("delete-local-index", "UpdateTable deleting the LOCAL secondary index %q: got class %s, want it refused", ch.Delete, got.Class)
+				}
+				return nil
 			}
 			delete(names, ch.Delete)
 		}
